@@ -100,8 +100,8 @@ def run(ctx):
             r_ok = any(("contents" in field_path(o.proj)) or ("range" in field_path(o.proj)) or o.kind in ("op", "agg", "const") for ff, o in rng)
             oks.append(b_ok and r_ok)
         ctx.ob("R1", "apply_rewrite splices the payload's own old_source", bool(idx) and all(oks), "%d slice(s) of diffs.old_source with ranges of diffs.contents" % len(idx), where=ar.loc())
-        ps = [c for c in ar.calls if c.name == "push_str"]
-        rep = any(any("replacement" in field_path(o.proj) for ff, o in ultimate_roots(prog, ar, c.args[1], TRANSPARENT | {"next", "into_iter", "deref"})) for c in ps)
+        ps = [(g, c) for g in prog.family(ar) for c in g.calls if c.name == "push_str"]
+        rep = any(any("replacement" in field_path(o.proj) for ff, o in ultimate_roots(prog, g, c.args[1], TRANSPARENT | {"next", "into_iter", "deref"})) for g, c in ps)
         ctx.ob("R1", "apply_rewrite inserts the accepted replacement", rep, "push_str of diff.replacement", where=ar.loc())
     splice_purity(ctx, "R1")
     # the accept filter's position (`end`) and everything else the printing thread remembers is per payload (C17 R7)
@@ -416,60 +416,84 @@ STRING_GROW = {"push_str", "reserve", "reserve_exact", "extend", "push", "write_
 def splice_purity(ctx, rid):
     """apply_rewrite is a pure splice of the accepted edits: the text it builds is only ever appended to (slices of the old source,
     replacement texts) and the read cursor into the old source is only ever set to the end of an accepted edit's range.  Anything else
-    (truncating what was written, skipping more of the old source than the edit's range) writes bytes no announced edit describes."""
+    (truncating what was written, skipping more of the old source than the edit's range) writes bytes no announced edit describes.
+    Works on the function and its closures (the loop may be a `fold` whose accumulator carries the text and the cursor)."""
     from .c11 import _src_local
     prog = ctx.prog
     ar0 = ctx.anchor(rid, r"^ast_grep::print::interactive_print::apply_rewrite$")
     if not ar0:
         return
     ar = prog.inlined(ar0)
-    # the String that is returned
-    out_roots = {id(o.ref) for o in ar.trace_operand(["m", [0, []]]) if o.kind == "call"}
-    outs = [c for c in ar.calls if id(c) in out_roots and "String" in c.best]
-    ctx.ob(rid, "apply_rewrite/output buffer", len(outs) >= 1, "the returned String is created in apply_rewrite (%s)" % [c.name for c in outs], where=ar0.loc())
-    if not outs:
-        return
+    fam = prog.family(ar)
+
+    def is_old_source(g, op):
+        if op[0] == "k":
+            return False
+        for h, o in ultimate_roots(prog, g, op, TRANSPARENT | {"index"}):
+            if o.kind == "param" and "old_source" in field_path(o.proj):
+                return True
+        return False
+
     bad = []
     n_mut = 0
-    for c in ar.calls:
-        if c.bb not in ar.live_blocks or not c.args or c.args[0][0] == "k":
-            continue
-        ty = ar.locals[c.args[0][1][0]]
-        if not ty.startswith("&mut alloc::string::String"):
-            continue
-        if not any(o.kind == "call" and o.ref in outs for o in deep_roots(prog, ar, c.args[0], TRANSPARENT)):
-            continue
-        n_mut += 1
-        if c.name not in STRING_GROW:
-            bad.append("%s at %s" % (c.name, ar.loc(c.line)))
+    for g in fam:
+        for c in g.calls:
+            if c.bb not in g.live_blocks or not c.args or c.args[0][0] == "k":
+                continue
+            ty = g.locals[c.args[0][1][0]]
+            if not ty.startswith("&mut alloc::string::String") or is_old_source(g, c.args[0]):
+                continue
+            n_mut += 1
+            if c.name not in STRING_GROW:
+                bad.append("%s at %s" % (c.name, g.loc(c.line)))
     ctx.ob(rid, "apply_rewrite/output is only appended to", not bad and n_mut >= 2,
-           "%d mutating call(s) on the output, all appends" % n_mut if not bad else
+           "%d mutating call(s) on the text being built, all appends" % n_mut if not bad else
            "the text being written is modified by %s: bytes already written (old source or an accepted replacement) are taken back, which no announced edit describes" % bad[:3], where=ar0.loc())
-    # cursor
-    cursors = {}
-    for c in ar.calls:
-        if c.name != "index" or c.bb not in ar.live_blocks or len(c.args) != 2:
-            continue
-        if not any(o.kind == "param" and "old_source" in field_path(o.proj) for o in deep_roots(prog, ar, c.args[0])):
-            continue
-        for o in ar.trace_operand(c.args[1]):
-            if o.kind == "agg" and "ops::range::Range" in str(o.ref[2][1].get("adt", "")) and "start" in o.ref[2][1].get("fields", []):
-                l = _src_local(ar, o.ref[2][2][o.ref[2][1]["fields"].index("start")])
-                if l:
-                    cursors[l[1]] = c
-    ctx.ob(rid, "apply_rewrite/read cursor", len(cursors) == 1, "slices of the old source start at one cursor variable (%s)" % [ar.local_name(l) for l in cursors], where=ar0.loc())
-    for l in cursors:
-        badc = []
-        for d in ar.defs.get(l, []):
-            if d[0] == "call":
-                badc.append("result of %s" % d[1].name)
+    # cursor: lower bounds of the slices of the old source
+    n_slices = 0
+    badc = []
+    for g in fam:
+        for c in g.calls:
+            if c.name != "index" or c.bb not in g.live_blocks or len(c.args) != 2 or not is_old_source(g, c.args[0]):
                 continue
-            rv = d[3]
-            if d[1] not in ar.live_blocks or (rv[0] == "use" and rv[1][0] == "k"):
-                continue
-            ors = ar.trace_operand(rv[1]) if rv[0] == "use" else []
-            if not ors or not all(o.kind in ("param", "local", "call") and "end" in field_path(o.proj) and "range" in " ".join(map(str, o.proj)) + " " + (ar.locals[o.ref] if o.kind in ("param", "local") else ar.locals[o.ref.dest[0]]) for o in ors):
-                badc.append("assignment at %s" % ar.loc(ar.blocks[d[1]]["s"][d[2]][3]))
-        ctx.ob(rid, "apply_rewrite/read cursor is set only to the end of an accepted edit", not badc,
-               "`%s` = diff.range.end" % ar.local_name(l) if not badc else
-               "the cursor into the old source is also moved by %s: more (or less) of the old text is skipped than the accepted edit's range" % badc[:3], where=ar0.loc())
+            for o in g.trace_operand(c.args[1]):
+                if not (o.kind == "agg" and "ops::range::Range" in str(o.ref[2][1].get("adt", "")) and "start" in o.ref[2][1].get("fields", [])):
+                    continue
+                n_slices += 1
+                l = _src_local(g, o.ref[2][2][o.ref[2][1]["fields"].index("start")])
+                if not l:
+                    continue
+                for d in g.defs.get(l[1], []):
+                    if d[0] == "call":
+                        badc.append("result of %s" % d[1].name)
+                        continue
+                    rv = d[3]
+                    if d[1] not in g.live_blocks or (rv[0] == "use" and rv[1][0] == "k"):
+                        continue
+                    ors = g.trace_operand(rv[1]) if rv[0] == "use" else []
+                    def from_range_end(h, o2):
+                        if o2.kind == "call" and o2.ref.name in ("fold", "try_fold"):
+                            return True   # the accumulator of a fold: its closure is checked as a family member
+                        if o2.kind == "param" and h is not ar and not o2.proj:
+                            return True   # the accumulator component handed to the fold closure
+                        ty2 = h.locals[o2.ref] if o2.kind in ("param", "local") else (h.locals[o2.ref.dest[0]] if o2.kind == "call" else "")
+                        return o2.kind in ("param", "local", "call") and "end" in field_path(o2.proj) and "range" in (" ".join(map(str, o2.proj)) + " " + ty2)
+                    if not ors or not all(from_range_end(g, o2) or (o2.kind == "param" and g is not ar and all(re.match(r"^\.\d+\|$", str(p_)) or p_ in ("*", "&") for p_ in o2.proj)) for o2 in ors):
+                        badc.append("assignment at %s" % g.loc(g.blocks[d[1]]["s"][d[2]][3]))
+    ctx.floor(rid, "slices of the old source in apply_rewrite", n_slices, 2)
+    ctx.ob(rid, "apply_rewrite/read cursor is set only to the end of an accepted edit", not badc,
+           "the position slices of the old source start from is only ever an accepted edit's range.end" if not badc else
+           "the cursor into the old source is also moved by %s: more (or less) of the old text is skipped than the accepted edit's range" % badc[:3], where=ar0.loc())
+    # a fold closure hands on (text, cursor): the cursor component it returns is an edit's range.end
+    for g in fam:
+        if g is ar:
+            continue
+        for bi in sorted(g.live_blocks):
+            for st in g.blocks[bi]["s"]:
+                if st[0] == "A" and st[1][0] == 0 and not st[1][1] and st[2][0] == "agg" and st[2][1].get("k") == "tuple":
+                    for op in st[2][2]:
+                        if op[0] != "k" and g.locals[op[1][0]] == "usize":
+                            ors = g.trace_operand(op)
+                            ok = bool(ors) and all("end" in field_path(o2.proj) for o2 in ors)
+                            ctx.ob(rid, "apply_rewrite/fold closure hands on range.end as the cursor", ok,
+                                   "accumulator cursor = diff.range.end" if ok else "the cursor component returned by the fold closure is not an edit's range.end", where=g.loc(st[3]))
